@@ -22,7 +22,7 @@ IO_PROPS = {"C14", "C15", "C16"}
 
 def _worker(args):
     prop, seed, tier, start, n = args
-    faulthandler.dump_traceback_later(900, exit=True)
+    faulthandler.dump_traceback_later(2400, exit=True)
     out = []
     for idx in range(start, start + n):
         case = runner.make_case(prop, seed, idx, tier)
@@ -197,7 +197,10 @@ def run_batch(prop: str, tier: str, seed: int, n_runs: int | None, budget_s: flo
                 for f in pending:
                     f.cancel()
                 break
-            if len({signature(v) for _, v in agg.viol}) < 6:
+            sigs = {}
+            for _, v in agg.viol:
+                sigs[signature(v)] = sigs.get(signature(v), 0) + 1
+            if len(sigs) < 6 and (not sigs or max(sigs.values()) < 200):
                 submit()
     agg.wall = time.time() - t0
     return agg
